@@ -13,7 +13,7 @@ parameters used; an offset without a previous value removes that node).
   * GraphExpander.expand(line) == the model's set of lines (offset-free lines);
   * NameExpander.expand(heading) == the model's (name, values) list as a
     multiset;
-  * 1 case in 8 (by hash): the same through WorkflowConfig ([task parameters],
+  * 1 case in 16 (by hash): the same through WorkflowConfig ([task parameters],
     parameterised [runtime] headings and graph) against a WorkflowConfig of the
     explicit expansion.
 """
@@ -32,11 +32,13 @@ from vf.props import c14 as B
 
 PROP_ID = 'C34'
 LEVEL = 'exploration'
-BUDGET = {'quick': 5000, 'thorough': 150000}
+BUDGET = {'quick': 4000, 'thorough': 150000}
 RULE = (
     'Hypothesis draws 1-3 parameters from {m, n, run}: integer lists (ranges '
     'with step, 1-4 values, default zero-padded template or a custom one), '
-    'string lists, or digit-string lists with %s templates; 1-3 graph chains '
+    'string lists, digit-string lists with %s templates, or mixed digit/non-'
+    'digit string lists (loop and offset use in lines; p=value on them is '
+    'checked value by value); 1-3 graph chains '
     'of 1-3 nodes whose atoms are name<items>name with items = loop variable, '
     'p=value, p-1, p-2 (AND/OR lists, optional parentheses, qualifiers), and a '
     'runtime heading of 1-3 parameterised names.  Oracle = explicit Cartesian '
@@ -73,7 +75,8 @@ BASES = ['foo', 'bar', 'baz', 'qux', 'pre', 'post']
 # ---------------------------------------------------------------- strategy
 @st.composite
 def _param(draw, name):
-    kind = draw(st.sampled_from(['int', 'int', 'str', 'digits', 'intstep']))
+    kind = draw(st.sampled_from(['int', 'int', 'str', 'digits', 'intstep',
+                                 'int', 'str', 'mixed']))
     if kind in ('int', 'intstep'):
         start = draw(st.integers(0, 12))
         k = draw(st.integers(1, 4))
@@ -95,6 +98,13 @@ def _param(draw, name):
                              unique=True))
         tmpl = None if draw(st.integers(0, 2)) else f'_{name}_%({name})s'
         return {'vals': vals, 'tmpl': tmpl, 'kind': 'str'}
+    if kind == 'mixed':
+        # "072, a" is a list of strings (parsec validate docstring)
+        vals = draw(st.lists(st.sampled_from(['07', '012', 'a', 'b2', '3']),
+                             min_size=2, max_size=4, unique=True))
+        if all(v.isdigit() for v in vals):
+            vals.append('a')
+        return {'vals': vals, 'tmpl': None, 'kind': 'mixed'}
     k = draw(st.integers(1, 4))
     start = draw(st.integers(0, 8))
     vals = [str(start + i) for i in range(k)]
@@ -110,6 +120,8 @@ def default_tmpl(name, p):
 @st.composite
 def _item(draw, name, p, allow_offset):
     w = draw(st.integers(0, 9))
+    if p['kind'] == 'mixed' and 6 <= w < 8:
+        w = 0          # p=value on mixed lists: checked separately below
     if w < 6 or (w >= 8 and not allow_offset):
         return [name, '', None]
     if w < 8:
@@ -343,6 +355,19 @@ def _paren_adjacent_offset(chains):
     return any(walk(n, True) for ch in chains for n in ch)
 
 
+def _zero_padded_specific(nodes, params):
+    """A p=value item whose value is a zero-padded digit string."""
+    for node in nodes:
+        for a in B._atoms(node):
+            for seg in a['segs']:
+                if isinstance(seg, list):
+                    for name, kind, arg in seg:
+                        if (kind == '=' and isinstance(arg, str)
+                                and arg.isdigit() and arg != str(int(arg))):
+                            return True
+    return False
+
+
 def _leading_adjacent_dropped(chains, params):
     """Some instance of some node loses its first AND its second operand
     (in written order, at one nesting level) to out-of-range offsets."""
@@ -569,7 +594,47 @@ def check_case(case, ctx: Ctx) -> CaseResult:
             'C34:NameExpander-raises:' + exc_sig(exc),
             f'{type(exc).__name__}: {exc}\nheading {heading!r}\n{ptxt}'))
 
-    if int(jhash(case)[:8], 16) % 8 == 0 and parsed and not viol:
+    # ---- p=value on a mixed list of digit and non-digit strings
+    for pname, p in params.items():
+        if p['kind'] != 'mixed':
+            continue
+        classes.append('mixed-list-specific-values')
+        for v in p['vals']:
+            want1 = {f'foo{tmpls[pname] % {pname: v}}'}
+            for label, call in (
+                ('GraphExpander', lambda: set(
+                    GraphExpander(cp).expand(f'foo<{pname}={v}>'))),
+                ('NameExpander', lambda: {n for n, _ in NameExpander(
+                    cp).expand(f'foo<{pname}={v}>')}),
+            ):
+                try:
+                    got1 = call()
+                except ParamExpandError as exc:
+                    viol.append(Violation(
+                        'C34:specific-value-on-mixed-list:rejected',
+                        f'{label} foo<{pname}={v}> with {pname} = '
+                        f'{p["vals"]}: {exc}'))
+                    continue
+                except RecursionError:
+                    raise
+                except Exception as exc:
+                    viol.append(Violation(
+                        'C34:specific-value-on-mixed-list:raises-'
+                        + type(exc).__name__,
+                        f'{label} foo<{pname}={v}> with {pname} = '
+                        f'{p["vals"]}: {type(exc).__name__}: {exc}'))
+                    continue
+                if got1 != want1:
+                    zp = v.isdigit() and v != str(int(v))
+                    viol.append(Violation(
+                        'C34:specific-value-on-mixed-list:'
+                        + ('zero-padded-value-renamed' if zp
+                           else 'wrong-name'),
+                        f'{label} foo<{pname}={v}> with {pname} = '
+                        f'{p["vals"]} gives {sorted(got1)}, the value\'s own '
+                        f'instance is {sorted(want1)}'))
+
+    if int(jhash(case)[:8], 16) % 16 == 0 and parsed and not viol:
         classes.append('via-config')
         viol += _check_config(case, text, heading, cut, keep, want, ctx)
     seen, out = set(), []
@@ -627,6 +692,7 @@ def _check_config(case, text, heading, cut, keep, want_names, ctx):
     params = case['params']
     if any(p['kind'] == 'digits' for p in params.values()):
         return []
+
     if not cut or not keep:
         return []      # nothing left to compare (every instance dropped)      # a config file turns digit strings into integers
     flow1 = _flow(_param_cfg_lines(params), text, [heading])
